@@ -118,7 +118,7 @@ def run_unit(unit, only=None):
         o = ref.opts(by_alias=by_alias)
         combos = [(DRAFT_2020_12, "DRAFT_2020_12", False), (DRAFT_2020_12, "DRAFT_2020_12", True),
                   (OPEN_API_3_1, "OPEN_API_3_1", False), (OPEN_API_3_1, "OPEN_API_3_1", True)]
-        if target == "bare" and not space.has_kind(d, {"dc", "dcgen", "dcgeninh", "dcinh", "dcself", "dcselft", "dcfwd", "dcmut"}):
+        if target == "bare" and not space.has_kind(d, {"dc", "dcgen", "dcgeninh", "dcinh", "dcself", "dcselft", "dcfwd", "dcmut", "dcselfg"}):
             combos = combos[:1]      # no dataclass => no definitions: dialect and all_refs cannot change the schema
         elif QUICK[0] and target != "bare":
             combos = [combos[0], combos[3]] if target == "wrapped" else [combos[3]]    # quick tier (stated in bounds)
@@ -133,13 +133,13 @@ def run_unit(unit, only=None):
                     continue
                 except RecursionError:
                     res.cases += 1
-                    V("schema-build-raised", "RecursionError", key, -1, "RecursionError", facts=dict(self_reference=bool({"dcself", "dcselft", "dcmut"} & set(space.kinds_of(d)))))
+                    V("schema-build-raised", "RecursionError", key, -1, "RecursionError", facts=dict(self_reference=bool({"dcself", "dcselft", "dcmut", "dcselfg"} & set(space.kinds_of(d)))))
                     continue
                 except Exception as e:   # noqa: BLE001
                     res.cases += 1
                     kinds = set(space.kinds_of(d))
                     V("schema-build-raised", type(e).__name__, key, -1, repr(e)[:200],
-                      facts=dict(self_reference=bool({"dcself", "dcselft", "dcmut"} & kinds), typing_self="dcselft" in kinds))
+                      facts=dict(self_reference=bool({"dcself", "dcselft", "dcmut", "dcselfg"} & kinds), typing_self="dcselft" in kinds))
                     continue
                 doc = doc_for(sch, dname)
                 if (dialect, all_refs) == (combos[0][0], combos[0][2]):
